@@ -1,0 +1,639 @@
+//! Verification seams (compiled only with `--cfg walrus_verif`).
+//!
+//! Std-shaped wrappers for the synchronisation, thread, channel and clock
+//! primitives the engine uses, plus an I/O event hook.  Every wrapper forwards
+//! to an installed [`Hooks`] object; with no object installed every hook is a
+//! no-op and the wrappers behave exactly like the std types they wrap.
+#![allow(dead_code)]
+
+use std::sync::OnceLock;
+use std::time::Duration;
+
+/// Source location of a hook call (for readable schedules).
+pub type Site = &'static std::panic::Location<'static>;
+
+#[derive(Clone, Copy, Debug, PartialEq, Eq, Hash)]
+pub enum IoKind {
+    CreateDir,
+    Create,
+    SetLen,
+    FileFsync,
+    DirFsync,
+    Open,
+    Store, // pwrite (fd backend) or memcpy into the mapping (mmap backend)
+    Load,
+    Flush, // fsync / msync of a WAL file
+    TmpWrite,
+    TmpFsync,
+    Rename,
+    Remove,
+    Exists,
+    ReadDir,
+    ReadFile,
+    UringSubmit,
+}
+
+pub struct IoEvent<'a> {
+    pub kind: IoKind,
+    pub path: &'a str,
+    pub path2: &'a str,
+    pub off: u64,
+    pub len: u64,
+    pub data: Option<&'a [u8]>,
+    pub mmap: bool,
+}
+
+#[derive(Clone, Copy, Debug, PartialEq, Eq)]
+pub enum IoVerdict {
+    Proceed,
+    /// The operation is not performed and fails with this errno.
+    FailBefore(i32),
+    /// Only the first `n` bytes of a store are performed; the process is
+    /// terminated by the hook right after (`after_store`).
+    Torn(u64),
+}
+
+/// One planned io_uring write of a batch.
+pub struct UringWrite {
+    pub path: String,
+    pub fd: i32,
+    pub off: u64,
+    pub ptr: *const u8,
+    pub len: usize,
+    pub user_data: u64,
+}
+
+pub enum UringVerdict {
+    Proceed,
+    FailSubmit(i32),
+}
+
+pub trait Hooks: Send + Sync + 'static {
+    fn sched(&self, site: Site);
+    fn gate(&self, site: Site, ready: &dyn Fn() -> bool);
+    fn spin(&self, site: Site);
+    fn spawn_register(&self, name: &str) -> u64;
+    fn thread_start(&self, token: u64);
+    fn thread_exit(&self);
+    fn sleep(&self, d: Duration);
+    /// Returns true when `ready` held before the deadline.
+    fn timed_wait(&self, site: Site, d: Duration, ready: &dyn Fn() -> bool) -> bool;
+    fn now_unix_nanos(&self) -> Option<u128>;
+    fn io(&self, ev: &IoEvent<'_>) -> IoVerdict;
+    fn after_store(&self);
+    fn uring_submit(&self, writes: &[UringWrite]) -> UringVerdict;
+    /// May override the result of one completion.
+    fn uring_cqe(&self, w: &UringWrite, res: i32) -> i32;
+    fn probe(&self, name: &'static str);
+    fn api(&self, op: &'static str, topic: &str, n: usize);
+}
+
+static HOOKS: OnceLock<Box<dyn Hooks>> = OnceLock::new();
+
+pub fn install(h: Box<dyn Hooks>) -> bool {
+    HOOKS.set(h).is_ok()
+}
+
+#[inline]
+pub fn hooks() -> Option<&'static dyn Hooks> {
+    HOOKS.get().map(|b| &**b)
+}
+
+#[inline]
+#[track_caller]
+pub fn sched() {
+    if let Some(h) = hooks() {
+        h.sched(std::panic::Location::caller());
+    }
+}
+
+#[inline]
+pub fn probe(name: &'static str) {
+    if let Some(h) = hooks() {
+        h.probe(name);
+    }
+}
+
+#[inline]
+pub fn api(op: &'static str, topic: &str, n: usize) {
+    if let Some(h) = hooks() {
+        h.api(op, topic, n);
+    }
+}
+
+/// I/O event in front of a file operation. `Err` = injected failure.
+pub fn io_check(kind: IoKind, path: &str, path2: &str, off: u64, len: u64) -> std::io::Result<()> {
+    if let Some(h) = hooks() {
+        let ev = IoEvent { kind, path, path2, off, len, data: None, mmap: false };
+        if let IoVerdict::FailBefore(errno) = h.io(&ev) {
+            return Err(std::io::Error::from_raw_os_error(errno));
+        }
+    }
+    Ok(())
+}
+
+/// Like `io_check` but carries the bytes being written (for traces).
+pub fn io_check_data(kind: IoKind, path: &str, off: u64, data: &[u8]) -> std::io::Result<()> {
+    if let Some(h) = hooks() {
+        let ev = IoEvent {
+            kind,
+            path,
+            path2: "",
+            off,
+            len: data.len() as u64,
+            data: Some(data),
+            mmap: false,
+        };
+        if let IoVerdict::FailBefore(errno) = h.io(&ev) {
+            return Err(std::io::Error::from_raw_os_error(errno));
+        }
+    }
+    Ok(())
+}
+
+/// Hook in front of a store into a WAL file. Returns the slice that must
+/// actually be stored (a prefix when the hook tears the store).
+pub fn store<'a>(path: &str, off: usize, data: &'a [u8], mmap: bool) -> &'a [u8] {
+    if let Some(h) = hooks() {
+        let ev = IoEvent {
+            kind: IoKind::Store,
+            path,
+            path2: "",
+            off: off as u64,
+            len: data.len() as u64,
+            data: Some(data),
+            mmap,
+        };
+        match h.io(&ev) {
+            IoVerdict::Torn(n) => return &data[..(n as usize).min(data.len())],
+            IoVerdict::FailBefore(_) => return &data[..0],
+            IoVerdict::Proceed => {}
+        }
+    }
+    data
+}
+
+pub fn after_store() {
+    if let Some(h) = hooks() {
+        h.after_store();
+    }
+}
+
+pub fn load(path: &str, off: usize, len: usize) {
+    if let Some(h) = hooks() {
+        let ev = IoEvent {
+            kind: IoKind::Load,
+            path,
+            path2: "",
+            off: off as u64,
+            len: len as u64,
+            data: None,
+            mmap: false,
+        };
+        let _ = h.io(&ev);
+    }
+}
+
+// ---------------------------------------------------------------------------
+// std::sync look-alikes
+// ---------------------------------------------------------------------------
+pub mod sync {
+    pub use std::sync::{Arc, LockResult, MutexGuard, OnceLock, RwLockReadGuard, RwLockWriteGuard};
+    use std::sync::TryLockError;
+
+    pub struct Mutex<T>(std::sync::Mutex<T>);
+
+    impl<T> Mutex<T> {
+        pub const fn new(t: T) -> Self {
+            Mutex(std::sync::Mutex::new(t))
+        }
+        #[track_caller]
+        pub fn lock(&self) -> LockResult<MutexGuard<'_, T>> {
+            if let Some(h) = super::hooks() {
+                h.gate(std::panic::Location::caller(), &|| {
+                    !matches!(self.0.try_lock(), Err(TryLockError::WouldBlock))
+                });
+            }
+            self.0.lock()
+        }
+    }
+
+    impl<T: std::fmt::Debug> std::fmt::Debug for Mutex<T> {
+        fn fmt(&self, f: &mut std::fmt::Formatter<'_>) -> std::fmt::Result {
+            self.0.fmt(f)
+        }
+    }
+
+    pub struct RwLock<T>(std::sync::RwLock<T>);
+
+    impl<T> RwLock<T> {
+        pub const fn new(t: T) -> Self {
+            RwLock(std::sync::RwLock::new(t))
+        }
+        #[track_caller]
+        pub fn read(&self) -> LockResult<RwLockReadGuard<'_, T>> {
+            if let Some(h) = super::hooks() {
+                h.gate(std::panic::Location::caller(), &|| {
+                    !matches!(self.0.try_read(), Err(TryLockError::WouldBlock))
+                });
+            }
+            self.0.read()
+        }
+        #[track_caller]
+        pub fn write(&self) -> LockResult<RwLockWriteGuard<'_, T>> {
+            if let Some(h) = super::hooks() {
+                h.gate(std::panic::Location::caller(), &|| {
+                    !matches!(self.0.try_write(), Err(TryLockError::WouldBlock))
+                });
+            }
+            self.0.write()
+        }
+    }
+
+    impl<T: std::fmt::Debug> std::fmt::Debug for RwLock<T> {
+        fn fmt(&self, f: &mut std::fmt::Formatter<'_>) -> std::fmt::Result {
+            self.0.fmt(f)
+        }
+    }
+
+    pub mod atomic {
+        pub use std::sync::atomic::Ordering;
+
+        macro_rules! atomic_int {
+            ($name:ident, $std:ty, $prim:ty) => {
+                #[derive(Debug)]
+                pub struct $name($std);
+                impl $name {
+                    pub const fn new(v: $prim) -> Self {
+                        $name(<$std>::new(v))
+                    }
+                    #[track_caller]
+                    pub fn load(&self, o: Ordering) -> $prim {
+                        crate::wal::verif::sched();
+                        self.0.load(o)
+                    }
+                    #[track_caller]
+                    pub fn store(&self, v: $prim, o: Ordering) {
+                        crate::wal::verif::sched();
+                        self.0.store(v, o)
+                    }
+                    #[track_caller]
+                    pub fn fetch_add(&self, v: $prim, o: Ordering) -> $prim {
+                        crate::wal::verif::sched();
+                        self.0.fetch_add(v, o)
+                    }
+                    #[track_caller]
+                    pub fn fetch_sub(&self, v: $prim, o: Ordering) -> $prim {
+                        crate::wal::verif::sched();
+                        self.0.fetch_sub(v, o)
+                    }
+                    #[track_caller]
+                    pub fn compare_exchange(
+                        &self,
+                        c: $prim,
+                        n: $prim,
+                        s: Ordering,
+                        f: Ordering,
+                    ) -> Result<$prim, $prim> {
+                        crate::wal::verif::sched();
+                        self.0.compare_exchange(c, n, s, f)
+                    }
+                }
+            };
+        }
+        atomic_int!(AtomicU16, std::sync::atomic::AtomicU16, u16);
+        atomic_int!(AtomicU64, std::sync::atomic::AtomicU64, u64);
+
+        #[derive(Debug)]
+        pub struct AtomicBool(std::sync::atomic::AtomicBool);
+        impl AtomicBool {
+            pub const fn new(v: bool) -> Self {
+                AtomicBool(std::sync::atomic::AtomicBool::new(v))
+            }
+            #[track_caller]
+            pub fn load(&self, o: Ordering) -> bool {
+                crate::wal::verif::sched();
+                self.0.load(o)
+            }
+            #[track_caller]
+            pub fn store(&self, v: bool, o: Ordering) {
+                crate::wal::verif::sched();
+                self.0.store(v, o)
+            }
+            #[track_caller]
+            pub fn swap(&self, v: bool, o: Ordering) -> bool {
+                crate::wal::verif::sched();
+                self.0.swap(v, o)
+            }
+            #[track_caller]
+            pub fn compare_exchange(
+                &self,
+                c: bool,
+                n: bool,
+                s: Ordering,
+                f: Ordering,
+            ) -> Result<bool, bool> {
+                crate::wal::verif::sched();
+                self.0.compare_exchange(c, n, s, f)
+            }
+            /// Used by the allocator's spin lock: a failed attempt tells the
+            /// scheduler that this thread cannot progress until another moved.
+            #[track_caller]
+            pub fn compare_exchange_weak(
+                &self,
+                c: bool,
+                n: bool,
+                s: Ordering,
+                f: Ordering,
+            ) -> Result<bool, bool> {
+                crate::wal::verif::sched();
+                let r = self.0.compare_exchange(c, n, s, f);
+                if r.is_err() {
+                    if let Some(h) = crate::wal::verif::hooks() {
+                        h.spin(std::panic::Location::caller());
+                    }
+                }
+                r
+            }
+        }
+    }
+
+    pub mod mpsc {
+        pub use std::sync::mpsc::{RecvTimeoutError, SendError, TryRecvError};
+        use std::sync::Arc;
+        use std::sync::atomic::{AtomicUsize, Ordering};
+        use std::time::Duration;
+
+        struct Shared {
+            len: AtomicUsize,
+            senders: AtomicUsize,
+        }
+
+        pub struct Sender<T> {
+            inner: std::sync::mpsc::Sender<T>,
+            shared: Arc<Shared>,
+        }
+
+        pub struct Receiver<T> {
+            inner: std::sync::mpsc::Receiver<T>,
+            shared: Arc<Shared>,
+        }
+
+        pub fn channel<T>() -> (Sender<T>, Receiver<T>) {
+            let (tx, rx) = std::sync::mpsc::channel();
+            let shared = Arc::new(Shared {
+                len: AtomicUsize::new(0),
+                senders: AtomicUsize::new(1),
+            });
+            (
+                Sender { inner: tx, shared: shared.clone() },
+                Receiver { inner: rx, shared },
+            )
+        }
+
+        impl<T> Clone for Sender<T> {
+            fn clone(&self) -> Self {
+                self.shared.senders.fetch_add(1, Ordering::SeqCst);
+                Sender { inner: self.inner.clone(), shared: self.shared.clone() }
+            }
+        }
+
+        impl<T> Drop for Sender<T> {
+            fn drop(&mut self) {
+                self.shared.senders.fetch_sub(1, Ordering::SeqCst);
+            }
+        }
+
+        impl<T> Sender<T> {
+            #[track_caller]
+            pub fn send(&self, t: T) -> Result<(), SendError<T>> {
+                crate::wal::verif::sched();
+                let r = self.inner.send(t);
+                if r.is_ok() {
+                    self.shared.len.fetch_add(1, Ordering::SeqCst);
+                }
+                r
+            }
+        }
+
+        impl<T> Receiver<T> {
+            #[track_caller]
+            pub fn try_recv(&self) -> Result<T, TryRecvError> {
+                crate::wal::verif::sched();
+                let r = self.inner.try_recv();
+                if r.is_ok() {
+                    self.shared.len.fetch_sub(1, Ordering::SeqCst);
+                }
+                r
+            }
+
+            #[track_caller]
+            pub fn recv_timeout(&self, d: Duration) -> Result<T, RecvTimeoutError> {
+                if let Some(h) = crate::wal::verif::hooks() {
+                    let shared = &self.shared;
+                    let ready = h.timed_wait(std::panic::Location::caller(), d, &|| {
+                        shared.len.load(Ordering::SeqCst) > 0
+                            || shared.senders.load(Ordering::SeqCst) == 0
+                    });
+                    if !ready {
+                        return Err(RecvTimeoutError::Timeout);
+                    }
+                    return match self.inner.try_recv() {
+                        Ok(v) => {
+                            self.shared.len.fetch_sub(1, Ordering::SeqCst);
+                            Ok(v)
+                        }
+                        Err(TryRecvError::Empty) => Err(RecvTimeoutError::Timeout),
+                        Err(TryRecvError::Disconnected) => Err(RecvTimeoutError::Disconnected),
+                    };
+                }
+                let r = self.inner.recv_timeout(d);
+                if r.is_ok() {
+                    self.shared.len.fetch_sub(1, Ordering::SeqCst);
+                }
+                r
+            }
+        }
+    }
+}
+
+// ---------------------------------------------------------------------------
+// std::thread look-alike
+// ---------------------------------------------------------------------------
+pub mod thread {
+    pub use std::thread::JoinHandle;
+    use std::time::Duration;
+
+    struct ExitGuard;
+    impl Drop for ExitGuard {
+        fn drop(&mut self) {
+            if let Some(h) = super::hooks() {
+                h.thread_exit();
+            }
+        }
+    }
+
+    pub fn spawn_named<F, T>(name: &str, f: F) -> JoinHandle<T>
+    where
+        F: FnOnce() -> T + Send + 'static,
+        T: Send + 'static,
+    {
+        match super::hooks() {
+            Some(h) => {
+                let token = h.spawn_register(name);
+                std::thread::spawn(move || {
+                    h.thread_start(token);
+                    let _g = ExitGuard;
+                    f()
+                })
+            }
+            None => std::thread::spawn(f),
+        }
+    }
+
+    #[track_caller]
+    pub fn spawn<F, T>(f: F) -> JoinHandle<T>
+    where
+        F: FnOnce() -> T + Send + 'static,
+        T: Send + 'static,
+    {
+        let loc = std::panic::Location::caller();
+        let name = format!("{}:{}", loc.file(), loc.line());
+        spawn_named(&name, f)
+    }
+
+    pub fn sleep(d: Duration) {
+        match super::hooks() {
+            Some(h) => h.sleep(d),
+            None => std::thread::sleep(d),
+        }
+    }
+}
+
+// ---------------------------------------------------------------------------
+// std::time look-alike
+// ---------------------------------------------------------------------------
+pub mod time {
+    pub struct SystemTime;
+
+    impl SystemTime {
+        pub const UNIX_EPOCH: std::time::SystemTime = std::time::SystemTime::UNIX_EPOCH;
+
+        pub fn now() -> std::time::SystemTime {
+            if let Some(h) = super::hooks() {
+                if let Some(ns) = h.now_unix_nanos() {
+                    let d = std::time::Duration::new(
+                        (ns / 1_000_000_000) as u64,
+                        (ns % 1_000_000_000) as u32,
+                    );
+                    return std::time::SystemTime::UNIX_EPOCH + d;
+                }
+            }
+            std::time::SystemTime::now()
+        }
+    }
+}
+
+// ---------------------------------------------------------------------------
+// io_uring shim for the batch-write ring: same call shapes as `IoUring`
+// (`submission()`, `submit_and_wait()`, `completion()`), with the planned
+// writes known to the hook so it can fail the submission, override single
+// completions, or terminate the process after an arbitrary subset completed.
+// ---------------------------------------------------------------------------
+#[cfg(target_os = "linux")]
+pub mod uring {
+    use super::{UringVerdict, UringWrite};
+
+    pub struct RingShim {
+        inner: io_uring::IoUring,
+        writes: Vec<UringWrite>,
+        pending: std::collections::VecDeque<CqeShim>,
+    }
+
+    pub struct CqeShim {
+        user_data: u64,
+        result: i32,
+    }
+
+    impl CqeShim {
+        pub fn user_data(&self) -> u64 {
+            self.user_data
+        }
+        pub fn result(&self) -> i32 {
+            self.result
+        }
+    }
+
+    pub struct CqIter<'a>(&'a mut std::collections::VecDeque<CqeShim>);
+
+    impl<'a> Iterator for CqIter<'a> {
+        type Item = CqeShim;
+        fn next(&mut self) -> Option<CqeShim> {
+            self.0.pop_front()
+        }
+    }
+
+    impl RingShim {
+        pub fn new(inner: io_uring::IoUring) -> Self {
+            RingShim { inner, writes: Vec::new(), pending: Default::default() }
+        }
+
+        pub fn note_write(
+            &mut self,
+            path: &str,
+            fd: i32,
+            off: u64,
+            ptr: *const u8,
+            len: usize,
+            user_data: u64,
+        ) {
+            self.writes.push(UringWrite { path: path.to_string(), fd, off, ptr, len, user_data });
+        }
+
+        pub fn submission(&mut self) -> io_uring::SubmissionQueue<'_> {
+            self.inner.submission()
+        }
+
+        pub fn submit_and_wait(&mut self, want: usize) -> std::io::Result<usize> {
+            if let Some(h) = super::hooks() {
+                if let UringVerdict::FailSubmit(errno) = h.uring_submit(&self.writes) {
+                    return Err(std::io::Error::from_raw_os_error(errno));
+                }
+            }
+            self.inner.submit_and_wait(want)
+        }
+
+        /// Completions are presented in `user_data` order (the kernel's order is
+        /// not part of the contract and would otherwise be a source of
+        /// nondeterminism), each result passing through the hook.
+        pub fn completion(&mut self) -> CqIter<'_> {
+            let mut v: Vec<CqeShim> = self
+                .inner
+                .completion()
+                .map(|c| CqeShim { user_data: c.user_data(), result: c.result() })
+                .collect();
+            v.sort_by_key(|c| c.user_data);
+            if let Some(h) = super::hooks() {
+                for c in v.iter_mut() {
+                    if let Some(w) = self.writes.iter().find(|w| w.user_data == c.user_data) {
+                        c.result = h.uring_cqe(w, c.result);
+                    }
+                }
+            }
+            self.pending.extend(v);
+            CqIter(&mut self.pending)
+        }
+    }
+}
+
+// ---------------------------------------------------------------------------
+// Read-only view of the reclamation bookkeeping: per file
+// (path, locked, checkpointed, total, fully_allocated) and per block
+// (id, file, checkpointed).
+// ---------------------------------------------------------------------------
+pub type FileStateRow = (String, u16, u16, u16, bool);
+pub type BlockStateRow = (usize, String, bool);
+
+pub fn reclaim_snapshot() -> (Vec<FileStateRow>, Vec<BlockStateRow>) {
+    crate::wal::runtime::verif_reclaim_snapshot()
+}
